@@ -212,6 +212,8 @@ impl<TStdlib: Stdlib, TStdIn: Input, TStdOut: Printer, TLpt1: Printer> Interpret
                             i = handler_address;
                         }
                         ErrorHandler::Next => {
+                            // the failing statement is abandoned: drop the arguments it was collecting
+                            self.context.drop_collecting_arguments();
                             i = ctx.nearest_statement_finder.find_next(i);
                         }
                         ErrorHandler::None => {
